@@ -776,6 +776,7 @@ func runC48(c *core.Ctx) {
 	for _, d := range w.ifaces {
 		decls[d.ev.id()] = d.ev
 	}
+	okOn := map[host.Engine]map[int]bool{}
 	for _, eng := range host.AllEngines {
 		hh := host.New()
 		if o := hh.Deploy(eng, host.Addr(1), "C0", w.c0); !succeeded(o) {
@@ -789,6 +790,9 @@ func runC48(c *core.Ctx) {
 			continue
 		}
 		uuidOf := map[int]uint64{}
+		if okOn[eng] == nil {
+			okOn[eng] = map[int]bool{}
+		}
 		for pi, p := range progs {
 			hh.ResetTrace()
 			var o host.Outcome
@@ -801,8 +805,20 @@ func runC48(c *core.Ctx) {
 			if !succeeded(o) {
 				c.Inc("execution_failed")
 				c.Note("execution_failure", core.Clip(host.ErrText(o), 1500)+"\n"+core.Clip(p.src, 3000))
+				// the same program on the same history succeeded on the interpreter: the events the model
+				// (and the interpreter) deliver are not delivered by this engine
+				if eng != host.EngI && okOn[host.EngI][pi] {
+					var prior []string
+					for _, q := range progs[:pi] {
+						prior = append(prior, q.src)
+					}
+					c.Violate(fmt.Sprintf("events-not-delivered: execution fails on %s only (%s: %s)", eng, host.Classify(o), host.ErrKind(o.Err)),
+						fmt.Sprintf("the program succeeds on the interpreter and delivers %d expected event(s); on %s it fails: %s", len(p.expect), eng, core.Clip(host.ErrText(o), 300)),
+						map[string]any{"contract_C0": w.c0, "contract_C1": w.c1, "program": p.src, "prior_programs": prior, "engine": eng.String()})
+				}
 				break // the model of the stored resources no longer applies to this engine's ledger
 			}
+			okOn[eng][pi] = true
 			c.Inc("successful_executions")
 			if len(hh.UUIDs) != len(p.creations) {
 				c.Inc("uuid_count_mismatch")
